@@ -55,7 +55,18 @@ Section Oracles.
 
   Theorem C01_unknown_kind : forall c k ss fs ks, mem_str k known_kinds = false -> walk c (T k ss fs ks) = Ask.
   Proof. exact (walk_unknown simple astr mredir cdres injrisk rulematch). Qed.
+
+  (* "$((" not closed by "))": bash runs a command substitution where the parser saw arithmetic *)
+  Theorem C01_unclosed_arith_word : forall c b k ss fs ks, let t := T k ss fs ks in
+    nonempty (children "parts" t) = true -> unclosed_arith (attr_d "value" t) = true ->
+    In Ask (r_wp (ev t) b c).
+  Proof. exact (unclosed_arith_asks simple astr mredir cdres injrisk rulematch). Qed.
+  Theorem C01_unclosed_arith_cmd : forall c ss fs ks, let t := T $"arith-cmd" ss fs ks in
+    unclosed_arith (attr_d "raw_content" t) = true -> walk c t <> Allow.
+  Proof. exact (unclosed_arith_cmd_asks simple astr mredir cdres injrisk rulematch). Qed.
 End Oracles.
+Print Assumptions C01_unclosed_arith_word.
+Print Assumptions C01_unclosed_arith_cmd.
 Print Assumptions C01_step.
 Print Assumptions C01_walker_complete.
 Print Assumptions C01_raw_positions.
@@ -86,6 +97,10 @@ Proof. exact no_opener_scan. Qed.
 Print Assumptions C01_rawscan_none.
 
 (* non-vacuity: echo $((1+$(ls))) - the inner command sits under word/arith/binary-op/cmdsub and is reached *)
+Example C01_unclosed_example :
+  unclosed_arith $"$((rm x) )" = true /\ unclosed_arith $"$(( (1+2)*3 ))" = false /\ unclosed_arith $"$((1+$((2)))) $((rm x); ls)" = true.
+Proof. vm_compute. repeat split; reflexivity. Qed.
+
 Example C01_example :
   let w s ks := T $"word" [($"value", s)] [] ks in
   let cmd ws := T $"command" [] [] (map (fun x => ($"words", x)) ws) in
